@@ -77,37 +77,75 @@ theorem Sectors.get_spec (s : Sectors) (id : Nat) (rd body : Bytes) (h : s.data 
     · simp
     · simp only [List.length_append]; omega
     · simp only [List.length_append]; omega
-theorem chainLoop_end (fats : List Nat) (rem : Nat) (s : Sectors) (rd : Bytes) :
-    Sectors.chainLoop fats rem ENDOFCHAIN s rd = .ok ([], s, rd) := by
+theorem Sectors.get_limit (s : Sectors) (id : Nat) (rd : Bytes) : (s.get id rd).2.1.limit = s.limit := rfl
+
+theorem chainLoop_end (fats : List Nat) (rem : Nat) (s : Sectors) (rd : Bytes) (acc : Nat) :
+    Sectors.chainLoop fats rem ENDOFCHAIN s rd acc = .ok ([], s, rd) := by
   cases rem <;> simp [Sectors.chainLoop]
 
+/-- `size` and `limit` of a `Sectors` never change -/
+theorem chainLoop_params (fats : List Nat) :
+    ∀ (rem id : Nat) (s : Sectors) (rd : Bytes) (acc : Nat) (x : Bytes) (s' : Sectors) (rd' : Bytes),
+      Sectors.chainLoop fats rem id s rd acc = .ok (x, s', rd') → s'.size = s.size ∧ s'.limit = s.limit := by
+  intro rem
+  induction rem with
+  | zero =>
+    intro id s rd acc x s' rd' h
+    unfold Sectors.chainLoop at h
+    split at h
+    · injection h with h; injection h with _ h; injection h with h1 _; subst h1; exact ⟨rfl, rfl⟩
+    · cases h
+  | succ rem ih =>
+    intro id s rd acc x s' rd' h
+    unfold Sectors.chainLoop at h
+    split at h
+    · injection h with h; injection h with _ h; injection h with h1 _; subst h1; exact ⟨rfl, rfl⟩
+    · split at h
+      · cases h
+      · dsimp only at h
+        split at h
+        · cases h
+        · split at h
+          · rename_i rest s'' rd'' heq
+            injection h with h; injection h with _ h; injection h with h1 _
+            have := ih _ _ _ _ _ _ _ heq
+            subst h1
+            exact ⟨this.1.trans (Sectors.get_spec s id rd _ rfl).2.2, this.2⟩
+          · cases h
+          · cases h
+          · cases h
+
 theorem chainLoop_follow (fats : List Nat) (body : Bytes) :
-    ∀ (ids : List Nat) (rem : Nat) (s : Sectors) (rd : Bytes),
+    ∀ (ids : List Nat) (rem : Nat) (s : Sectors) (rd : Bytes) (acc : Nat),
       s.data ++ rd = body → ids.length ≤ rem →
       (∀ i (h : i < ids.length), ids[i] ≠ ENDOFCHAIN ∧ fats[ids[i]]? = some (ids[i+1]?.getD ENDOFCHAIN)) →
-      ∃ s' rd', Sectors.chainLoop fats rem (ids[0]?.getD ENDOFCHAIN) s rd =
+      acc + ((ids.map (sec body s.size)).flatten).length ≤ s.limit →
+      ∃ s' rd', Sectors.chainLoop fats rem (ids[0]?.getD ENDOFCHAIN) s rd acc =
           .ok ((ids.map (sec body s.size)).flatten, s', rd') ∧ s'.data ++ rd' = body ∧ s'.size = s.size := by
   intro ids
   induction ids with
   | nil =>
-    intro rem s rd hinv _ _
+    intro rem s rd acc hinv _ _ _
     exact ⟨s, rd, by simp [chainLoop_end], hinv, rfl⟩
   | cons a rest ih =>
-    intro rem s rd hinv hrem hch
+    intro rem s rd acc hinv hrem hch hlim
     obtain ⟨rem', rfl⟩ : ∃ r, rem = r + 1 := ⟨rem - 1, by simp at hrem; omega⟩
     have h0 := hch 0 (by simp)
     simp only [List.getElem_cons_zero, Nat.zero_add, List.getElem?_cons_succ] at h0
     obtain ⟨hne, hfat⟩ := h0
     obtain ⟨hg1, hg2, hg3⟩ := Sectors.get_spec s a rd body hinv
-    have hrest := ih rem' (s.get a rd).2.1 (s.get a rd).2.2 hg2 (by simp at hrem; omega) (by
+    simp only [List.map_cons, List.flatten_cons, List.length_append] at hlim
+    have hrest := ih rem' (s.get a rd).2.1 (s.get a rd).2.2 (acc + (s.get a rd).1.length) hg2
+      (by simp at hrem; omega) (by
       intro i hi
       have := hch (i + 1) (by simp; omega)
-      simpa using this)
+      simpa using this) (by rw [hg3, Sectors.get_limit, hg1]; omega)
     obtain ⟨s', rd', he, hi', hs'⟩ := hrest
     refine ⟨s', rd', ?_, hi', by rw [hs', hg3]⟩
     simp only [List.getElem?_cons_zero, Option.getD_some]
     unfold Sectors.chainLoop
-    simp only [hne, if_false, hfat]
+    have hchk : ¬ (acc + (s.get a rd).1.length > s.limit) := by rw [hg1]; omega
+    simp only [hne, if_false, hfat, hchk]
     rw [he]
     simp only [List.map_cons, List.flatten_cons, hg1, hg3]
 
@@ -363,34 +401,6 @@ theorem chainStart_eq (sp : Space) (c : Nat) : chainStart sp c = (sp.ids c)[0]?.
   | some ch => simp
 
 theorem Space.fats_length (sp : Space) (len : Nat) : (sp.fats len).length = len := by simp [Space.fats]
-
-/-- `get_chain` on chain `c` of a space returns the chain's data, truncated to its length -/
-theorem Space.getChain_data (sp : Space) (ss : Nat) (hss : 0 < ss) (fill : UInt8) (P : Array (Array Bytes))
-    (fatSec difSec : Nat → Bytes)
-    (hP : UniformP ss P) (hf : ∀ j, (fatSec j).length = ss) (hd : ∀ j, (difSec j).length = ss)
-    (c : Nat) (D : Bytes) (hPc : P[c]? = some (pieces ss fill D))
-    (hok : chainOK sp c (nsect ss D.length) = true)
-    (len : Nat) (hlen : sp.owner.size ≤ len) (hres : sp.owner.size ≤ RESERVED)
-    (s : Sectors) (rd : Bytes) (hsz : s.size = ss) (hinv : s.data ++ rd = sp.body ss fill P fatSec difSec) :
-    ∃ s' rd', s.getChain (chainStart sp c) (sp.fats len) rd D.length = .ok (D, s', rd') ∧
-      s'.data ++ rd' = sp.body ss fill P fatSec difSec ∧ s'.size = ss := by
-  have hfol := chainLoop_follow (sp.fats len) _ (sp.ids c) (sp.fats len).length s rd hinv
-    (by rw [Space.fats_length]; exact Nat.le_trans (Space.ids_length_le sp c _ hok) hlen)
-    (Space.fats_chain sp c _ len hok hlen hres)
-  obtain ⟨s', rd', he, hi, hs⟩ := hfol
-  refine ⟨s', rd', ?_, hi, by rw [hs, hsz]⟩
-  unfold Sectors.getChain
-  rw [chainStart_eq, he]
-  simp only
-  rw [hsz, Space.read_chain sp ss hss fill P fatSec difSec hP hf hd c D hPc hok]
-  congr 2
-  split
-  · exact padChunks_flatten_take ss fill hss _ D (Nat.le_refl _)
-  · rename_i h
-    have : D = [] := List.eq_nil_of_length_eq_zero (by omega)
-    subst this
-    simp [padChunks]
-
 
 /-! ## little-endian reads at an offset -/
 
@@ -812,29 +822,24 @@ theorem fatId_spec (streams : List Stream) (L : Layout) (hv : ValidP streams L) 
   rw [hk]
   exact ⟨owner_lt _ _ _ ho, ho⟩
 
-theorem loadFats_layout (streams : List Stream) (L : Layout) (hv : ValidP streams L) :
-    ∀ (m a : Nat) (s : Sectors) (rd : Bytes), s.data ++ rd = mainBody streams L → s.size = L.ss →
-      ∃ s' rd', loadFats ((List.range' a m).map (fatIdAt L)) s rd =
+theorem loadFats_layout (streams : List Stream) (L : Layout) (hv : ValidP streams L) (lim : Nat) :
+    ∀ (m a : Nat) (s : Sectors) (rd : Bytes) (acc : Nat), s.data ++ rd = mainBody streams L → s.size = L.ss →
+      acc + (((List.range' a m).map fun j => if j < L.nfat then fatRow L j else []).flatten).length ≤ lim →
+      ∃ s' rd', loadFats ((List.range' a m).map (fatIdAt L)) s rd lim acc =
           .ok (((List.range' a m).map fun j => if j < L.nfat then fatRow L j else []).flatten, s', rd') ∧
-        s'.data ++ rd' = mainBody streams L ∧ s'.size = L.ss := by
+        s'.data ++ rd' = mainBody streams L ∧ s'.size = L.ss ∧ s'.limit = s.limit := by
   intro m
   induction m with
-  | zero => intro a s rd hinv hsz; exact ⟨s, rd, by simp [loadFats], hinv, hsz⟩
+  | zero => intro a s rd acc hinv hsz _; exact ⟨s, rd, by simp [loadFats], hinv, hsz, rfl⟩
   | succ m ih =>
-    intro a s rd hinv hsz
-    rw [List.range'_succ]
-    simp only [List.map_cons, List.flatten_cons]
+    intro a s rd acc hinv hsz hlim
+    rw [List.range'_succ] at hlim ⊢
+    simp only [List.map_cons, List.flatten_cons, List.length_append] at hlim ⊢
     by_cases ha : a < L.nfat
     · obtain ⟨hlt, hown⟩ := fatId_spec streams L hv a ha
       obtain ⟨hg1, hg2, hg3⟩ := Sectors.get_spec s (fatIdAt L a) rd _ hinv
       rw [hsz, mainBody_sec streams L _ _ hown] at hg1
       simp only [sectorOf] at hg1
-      obtain ⟨s', rd', he, hi', hs'⟩ := ih (a + 1) (s.get (fatIdAt L a) rd).2.1 (s.get (fatIdAt L a) rd).2.2 hg2
-        (by rw [hg3, hsz])
-      refine ⟨s', rd', ?_, hi', hs'⟩
-      have hd : fatIdAt L a < DIFSECT := by have := hv.total_le; simp only [RESERVED, DIFSECT] at *; omega
-      have hmod : (fatSector L a).length % 4 = 0 := by
-        rw [fatSector_length]; rcases ss_cases L with ⟨h1, _⟩ | ⟨h1, _⟩ <;> omega
       have hu : u32s (fatSector L a) = fatRow L a := by
         unfold fatSector fatRow
         apply u32s_le32s
@@ -842,10 +847,17 @@ theorem loadFats_layout (streams : List Stream) (L : Layout) (hv : ValidP stream
         simp only [List.mem_map] at hv'
         obtain ⟨t, _, rfl⟩ := hv'
         exact main_entry_lt streams L hv t
+      simp only [ha, if_true] at hlim
+      obtain ⟨s', rd', he, hi', hs', hl'⟩ := ih (a + 1) (s.get (fatIdAt L a) rd).2.1 (s.get (fatIdAt L a) rd).2.2
+        (acc + (fatRow L a).length) hg2 (by rw [hg3, hsz]) (by omega)
+      refine ⟨s', rd', ?_, hi', hs', hl'⟩
+      have hd : fatIdAt L a < DIFSECT := by have := hv.total_le; simp only [RESERVED, DIFSECT] at *; omega
+      have hchk : ¬ (acc + (fatRow L a).length > lim) := by omega
       unfold loadFats
-      simp only [hd, if_true, hg1, hmod, ne_eq, not_true_eq_false, if_false, he, hu, ha]
-    · obtain ⟨s', rd', he, hi', hs'⟩ := ih (a + 1) s rd hinv hsz
-      refine ⟨s', rd', ?_, hi', hs'⟩
+      simp only [hd, if_true, hg1, hu, hchk, if_false, he, ha]
+    · simp only [ha, if_false, List.length_nil, Nat.zero_add] at hlim
+      obtain ⟨s', rd', he, hi', hs', hl'⟩ := ih (a + 1) s rd acc hinv hsz hlim
+      refine ⟨s', rd', ?_, hi', hs', hl'⟩
       have hfree : fatIdAt L a = FREESECT := by
         unfold fatIdAt
         rw [Array.getElem?_eq_none (by simp only [Layout.nfat] at ha; omega)]; rfl
@@ -920,7 +932,8 @@ theorem sec_append_left (B extra : Bytes) (ss id : Nat) (h : (id + 1) * ss ≤ B
   rw [List.drop_append_of_le_length (by rw [Nat.add_mul] at h; omega)]
   rw [List.take_append_of_le_length (by rw [List.length_drop, Nat.add_mul] at *; omega)]
 
-/-- `get_chain` on chain `c` of a space, for any `len` argument; the reader may hold more than the space -/
+/-- `get_chain` on chain `c` of a space, for any `len` argument; the reader may hold more than the space;
+    `hlim`: the space fits the file length the reader was given -/
 theorem Space.getChain_gen (sp : Space) (ss : Nat) (hss : 0 < ss) (fill : UInt8) (P : Array (Array Bytes))
     (fatSec difSec : Nat → Bytes)
     (hP : UniformP ss P) (hf : ∀ j, (fatSec j).length = ss) (hd : ∀ j, (difSec j).length = ss)
@@ -928,21 +941,15 @@ theorem Space.getChain_gen (sp : Space) (ss : Nat) (hss : 0 < ss) (fill : UInt8)
     (hok : chainOK sp c (nsect ss D.length) = true)
     (len : Nat) (hlen : sp.owner.size ≤ len) (hres : sp.owner.size ≤ RESERVED)
     (s : Sectors) (rd extra : Bytes) (hsz : s.size = ss)
-    (hinv : s.data ++ rd = sp.body ss fill P fatSec difSec ++ extra) (len0 : Nat) :
+    (hinv : s.data ++ rd = sp.body ss fill P fatSec difSec ++ extra) (hlim : ss * sp.owner.size ≤ s.limit)
+    (len0 : Nat) :
     ∃ s' rd', s.getChain (chainStart sp c) (sp.fats len) rd len0 =
         .ok (if len0 > 0 then (padChunks ss fill D.length D).flatten.take len0
              else (padChunks ss fill D.length D).flatten, s', rd') ∧
       s'.data ++ rd' = sp.body ss fill P fatSec difSec ++ extra ∧ s'.size = ss := by
-  have hfol := chainLoop_follow (sp.fats len) _ (sp.ids c) (sp.fats len).length s rd hinv
-    (by rw [Space.fats_length]; exact Nat.le_trans (Space.ids_length_le sp c _ hok) hlen)
-    (Space.fats_chain sp c _ len hok hlen hres)
-  obtain ⟨s', rd', he, hi, hs⟩ := hfol
-  refine ⟨s', rd', ?_, hi, by rw [hs, hsz]⟩
-  unfold Sectors.getChain
-  rw [chainStart_eq, he]
-  simp only
   have hmap : (sp.ids c).map (sec (sp.body ss fill P fatSec difSec ++ extra) s.size) =
-      (sp.ids c).map (sec (sp.body ss fill P fatSec difSec) ss) := by
+      padChunks ss fill D.length D := by
+    rw [← Space.read_chain sp ss hss fill P fatSec difSec hP hf hd c D hPc hok]
     apply List.map_congr_left
     intro id hid
     rw [hsz]
@@ -951,7 +958,20 @@ theorem Space.getChain_gen (sp : Space) (ss : Nat) (hss : 0 < ss) (fill : UInt8)
     have := Space.ids_lt sp c _ hok id hid
     rw [Nat.mul_comm]
     exact Nat.mul_le_mul_left ss (by omega)
-  rw [hmap, Space.read_chain sp ss hss fill P fatSec difSec hP hf hd c D hPc hok]
+  have hflen : (padChunks ss fill D.length D).flatten.length ≤ s.limit := by
+    rw [flatten_uniform_length ss _ (padChunks_all_len ss fill _ _), padChunks_length ss fill hss _ _ (Nat.le_refl _)]
+    have h1 := Space.ids_length_le sp c _ hok
+    rw [(Space.ids_spec sp c _ hok).1] at h1
+    exact Nat.le_trans (Nat.mul_le_mul_left ss h1) hlim
+  have hfol := chainLoop_follow (sp.fats len) _ (sp.ids c) (sp.fats len).length s rd 0 hinv
+    (by rw [Space.fats_length]; exact Nat.le_trans (Space.ids_length_le sp c _ hok) hlen)
+    (Space.fats_chain sp c _ len hok hlen hres) (by rw [hmap]; omega)
+  obtain ⟨s', rd', he, hi, hs⟩ := hfol
+  refine ⟨s', rd', ?_, hi, by rw [hs, hsz]⟩
+  unfold Sectors.getChain
+  rw [chainStart_eq, he]
+  simp only
+  rw [hmap]
 
 theorem padChunks_flatten_exact (ss : Nat) (fill : UInt8) (hss : 0 < ss) :
     ∀ (f : Nat) (d : Bytes), d.length ≤ f → d.length % ss = 0 → (padChunks ss fill f d).flatten = d := by
@@ -1090,78 +1110,26 @@ def nameField (name : List Char) : Bytes :=
   le16s (utf16Units name) ++ List.replicate (64 - (le16s (utf16Units name)).length) 0
 
 theorem nameEncOK_spec (name : List Char) (h : nameEncOK name = true) :
-    0 < (utf16Units name).length ∧ (utf16Units name).length ≤ 31 ∧ (∀ c ∈ name, c ≠ Char.ofNat 0) ∧
-    (utf16Units name).head? ≠ some 0xFEFF ∧ (utf16Units name).head? ≠ some 0xFFFE ∧
-    ¬ ((utf16Units name).head? = some 0xBBEF ∧ ((utf16Units name).getD 1 0) % 256 = 0xBF) := by
+    0 < (utf16Units name).length ∧ (utf16Units name).length ≤ 31 ∧ (∀ c ∈ name, c ≠ Char.ofNat 0) := by
   unfold nameEncOK at h
-  simp only [Bool.and_eq_true, decide_eq_true_eq, Bool.not_eq_true', bne_iff_ne, ne_eq,
-    Bool.and_eq_false_iff, beq_eq_false_iff_ne, List.contains_eq_mem, decide_eq_false_iff_not] at h
-  obtain ⟨⟨⟨⟨⟨h1, h2⟩, h3⟩, h4⟩, h5⟩, h6⟩ := h
-  refine ⟨h1, h2, ?_, h4, h5, ?_⟩
-  · intro c hc he; subst he; exact h3 hc
-  · intro ⟨ha, hb⟩
-    rcases h6 with h6 | h6
-    · exact h6 ha
-    · exact h6 hb
+  simp only [Bool.and_eq_true, decide_eq_true_eq, Bool.not_eq_true', List.contains_eq_mem,
+    decide_eq_false_iff_not] at h
+  obtain ⟨⟨h1, h2⟩, h3⟩ := h
+  refine ⟨h1, h2, ?_⟩
+  intro c hc he; subst he; exact h3 hc
 
 theorem decodeName64_field (name : List Char) (h : nameEncOK name = true) :
     untilNul (decodeName64 (nameField name)) = name := by
-  obtain ⟨hpos, hle, hnul, hfe, hff, hbom⟩ := nameEncOK_spec name h
+  obtain ⟨hpos, hle, hnul⟩ := nameEncOK_spec name h
   have hlt := utf16Units_lt name
   obtain ⟨m, hm⟩ : ∃ m, m = (utf16Units name).length := ⟨_, rfl⟩
   have hpad : 64 - (le16s (utf16Units name)).length = 2 * (32 - m) := by rw [le16s_length]; omega
   have hU : u16s (nameField name) = utf16Units name ++ List.replicate (32 - m) 0 := by
     unfold nameField
     rw [hpad, u16s_le16s _ _ hlt, u16s_zeros]
-  cases hunits : utf16Units name with
-  | nil => rw [hunits] at hpos; simp at hpos
-  | cons u0 r =>
-    rw [hunits] at hU hfe hff hbom hlt
-    simp only [List.head?_cons, ne_eq, Option.some.injEq] at hfe hff hbom
-    have hu0 : u0 < 65536 := hlt u0 (by simp)
-    have hdec : decodeUtf16 (u0 :: r ++ List.replicate (32 - m) 0) = name ++ List.replicate (32 - m) (Char.ofNat 0) := by
-      rw [← hunits, decode_units, decode_zeros]
-    unfold decodeName64
-    rw [hU]
-    split
-    · rename_i rest heq; simp only [List.cons_append, List.cons.injEq] at heq; exact absurd heq.1 hfe
-    · rename_i rest heq; simp only [List.cons_append, List.cons.injEq] at heq; exact absurd heq.1 hff
-    · have hno : ¬ (nameField name).take 3 = [0xEF, 0xBB, 0xBF] := by
-        unfold nameField
-        rw [hpad, hunits]
-        intro hb
-        cases r with
-        | nil =>
-          have hm1 : m = 1 := by rw [hunits] at hm; simpa using hm
-          subst hm1
-          simp only [le16s, List.flatMap_cons, List.flatMap_nil, le16, List.append_nil, List.cons_append,
-            List.nil_append] at hb
-          have : (2 * (32 - 1)) = 61 + 1 := by omega
-          rw [this, List.replicate_succ] at hb
-          simp only [List.take_succ_cons, List.take_zero, List.cons.injEq, and_true] at hb
-          obtain ⟨_, _, h3⟩ := hb
-          have := congrArg UInt8.toNat h3
-          simp at this
-        | cons r0 r' =>
-          simp only [le16s, List.flatMap_cons, le16, List.cons_append, List.nil_append,
-            List.take_succ_cons, List.take_zero, List.cons.injEq, and_true] at hb
-          obtain ⟨h1, h2, h3⟩ := hb
-          have e1 := congrArg UInt8.toNat h1
-          have e2 := congrArg UInt8.toNat h2
-          have e3 := congrArg UInt8.toNat h3
-          simp only [UInt8.toNat_ofNat'] at e1 e2 e3
-          have hr0 : r0 < 65536 := hlt r0 (by simp)
-          apply hbom
-          simp only [List.getD_cons_succ, List.getD_cons_zero]
-          constructor
-          · have : (0xEF : UInt8).toNat = 0xEF := rfl
-            have : (0xBB : UInt8).toNat = 0xBB := rfl
-            omega
-          · have : (0xBF : UInt8).toNat = 0xBF := rfl
-            omega
-      simp only [hno, if_false]
-      rw [hdec]
-      exact untilNul_name name _ hnul
+  unfold decodeName64
+  rw [hU, decode_units, decode_zeros]
+  exact untilNul_name name _ hnul
 
 
 theorem nameField_length (name : List Char) (h : (utf16Units name).length ≤ 31) : (nameField name).length = 64 := by
@@ -1619,20 +1587,67 @@ theorem dir_chain_result (D : Bytes) (len0 : Nat) (h : len0 = 0 ∨ len0 = D.len
     · rw [h]; exact List.take_length
     · rfl
 
+theorem getChain_params (s : Sectors) (start : Nat) (fats : List Nat) (rd : Bytes) (len : Nat)
+    (x : Bytes) (s' : Sectors) (rd' : Bytes) (h : s.getChain start fats rd len = .ok (x, s', rd')) :
+    s'.size = s.size ∧ s'.limit = s.limit := by
+  unfold Sectors.getChain at h
+  split at h
+  · rename_i chain s'' rd'' heq
+    injection h with h; injection h with _ h; injection h with h1 _
+    subst h1
+    exact chainLoop_params fats _ _ _ _ _ _ _ _ heq
+  · cases h
+  · cases h
+  · cases h
+
+theorem difatLoop_params : ∀ (rem id : Nat) (difat : List Nat) (s : Sectors) (rd : Bytes)
+    (d : List Nat) (s' : Sectors) (rd' : Bytes),
+    difatLoop rem id difat s rd = .ok (d, s', rd') → s'.size = s.size ∧ s'.limit = s.limit := by
+  intro rem
+  induction rem with
+  | zero =>
+    intro id difat s rd d s' rd' h
+    unfold difatLoop at h
+    split at h
+    · cases h
+    · injection h with h; injection h with _ h; injection h with h1 _; subst h1; exact ⟨rfl, rfl⟩
+  | succ rem ih =>
+    intro id difat s rd d s' rd' h
+    unfold difatLoop at h
+    split at h
+    · dsimp only at h
+      split at h
+      · cases h
+      · have := ih _ _ _ _ _ _ _ h
+        exact ⟨this.1.trans (Sectors.get_spec s id rd _ rfl).2.2, this.2⟩
+    · injection h with h; injection h with _ h; injection h with h1 _; subst h1; exact ⟨rfl, rfl⟩
+
 theorem new_layout (streams : List Stream) (L : Layout) (hv : ValidP streams L) :
     ∃ s rd, Cfb.new (layoutCfb streams L) (layoutCfb streams L).length =
-        .ok (⟨parsedDirs streams L, s, L.main.fats (L.nfat * L.perFat), ⟨miniBody streams L, 64⟩, miniFatTable L⟩, rd) ∧
-      s.data ++ rd = mainBody streams L ∧ s.size = L.ss := by
+        .ok (⟨parsedDirs streams L, s, L.main.fats (L.nfat * L.perFat),
+              ⟨miniBody streams L, 64, (layoutCfb streams L).length⟩, miniFatTable L⟩, rd) ∧
+      s.data ++ rd = mainBody streams L ∧ s.size = L.ss ∧ s.limit = (layoutCfb streams L).length := by
   have hss := ss_pos L
+  have hLf := layoutCfb_length streams L
+  have hfit : L.ss * L.main.owner.size ≤ (layoutCfb streams L).length := by
+    rw [hLf]; exact Nat.mul_le_mul_left _ (by simp only [Layout.total]; omega)
   have h1 := fromReader_layout streams L (hdrFields_lt streams L hv) (hdrDifat_lt streams L hv)
   have hdN : L.ndif ≤ L.total := idsOK_size_le _ _ _ slot_difat_inj hv.difIds
   have hrem : L.ndif ≤ (layoutCfb streams L).length / L.ss + 1 := by
     rw [layoutCfb_length, Nat.mul_div_cancel_left _ hss]; omega
-  obtain ⟨s1, rd1, e2, i2, z2⟩ := difatLoop_layout streams L hv L.ndif 0 (by omega) _ ⟨[], L.ss⟩ (mainBody streams L)
-    hrem (by simp) rfl
+  obtain ⟨s1, rd1, e2, i2, z2⟩ := difatLoop_layout streams L hv L.ndif 0 (by omega) _
+    ⟨[], L.ss, (layoutCfb streams L).length⟩ (mainBody streams L) hrem (by simp) rfl
+  have l1 : s1.limit = (layoutCfb streams L).length := (difatLoop_params _ _ _ _ _ _ _ _ e2).2
   have hd0 : difatUpTo L 0 = hdrDifat L := by simp [difatUpTo, hdrDifat]
   rw [hd0] at e2
-  obtain ⟨s2, rd2, e3, i3, z3⟩ := loadFats_layout streams L hv (109 + L.ndif * (L.perFat - 1)) 0 s1 rd1 i2 z2
+  have hnf : L.nfat ≤ L.total := idsOK_size_le _ _ _ slot_fat_inj hv.fatIds
+  have hfl : 0 + (((List.range' 0 (109 + L.ndif * (L.perFat - 1))).map
+      fun j => if j < L.nfat then fatRow L j else []).flatten).length ≤ (layoutCfb streams L).length / 4 := by
+    rw [fat_rows_all L _ hv.nfat_le, Space.fats_length, hLf]
+    rcases ss_cases L with ⟨h1, h2⟩ | ⟨h1, h2⟩ <;> rw [h1, h2] <;> omega
+  obtain ⟨s2, rd2, e3, i3, z3, l2⟩ := loadFats_layout streams L hv ((layoutCfb streams L).length / 4)
+    (109 + L.ndif * (L.perFat - 1)) 0 s1 rd1 0 i2 z2 hfl
+  rw [l1] at l2
   have hdN' : difatUpTo L L.ndif = (List.range' 0 (109 + L.ndif * (L.perFat - 1))).map (fatIdAt L) := by
     simp [difatUpTo, List.range_eq_range']
   rw [← hdN', fat_rows_all L _ hv.nfat_le] at e3
@@ -1643,7 +1658,8 @@ theorem new_layout (streams : List Stream) (L : Layout) (hv : ValidP streams L) 
   obtain ⟨s3, rd3, e4, i4, z4⟩ := Space.getChain_gen L.main L.ss hss L.fill (mainPieces streams L) (fatSector L)
     (difSector L) (mainPieces_uniform streams L) (fatSector_length L) (difSector_length L) 0 (dirBytes streams L)
     (mainPieces_get streams L 0 _ rfl) hc0 (L.nfat * L.perFat) hv.total_fat hv.total_le s2 rd2 [] z3
-    (by rw [List.append_nil]; exact i3) ((hdrOf streams L).dirLen * L.ss)
+    (by rw [List.append_nil]; exact i3) (by rw [l2]; exact hfit) ((hdrOf streams L).dirLen * L.ss)
+  have l3 : s3.limit = (layoutCfb streams L).length := by rw [(getChain_params _ _ _ _ _ _ _ _ e4).2, l2]
   rw [padChunks_flatten_exact L.ss L.fill hss _ _ (Nat.le_refl _) (by rw [hdl]; exact Nat.mul_mod_left _ _)] at e4
   rw [dir_chain_result] at e4
   · unfold Cfb.new
@@ -1672,7 +1688,8 @@ theorem new_layout (streams : List Stream) (L : Layout) (hv : ValidP streams L) 
       obtain ⟨s4, rd4, e5, i5, z5⟩ := Space.getChain_gen L.main L.ss hss L.fill (mainPieces streams L) (fatSector L)
         (difSector L) (mainPieces_uniform streams L) (fatSector_length L) (difSector_length L) 2 (miniBody streams L)
         (mainPieces_get streams L 2 _ rfl) hc2 (L.nfat * L.perFat) hv.total_fat hv.total_le s3 rd3 [] z4
-        (by rw [List.append_nil]; exact i4) (64 * L.mtotal)
+        (by rw [List.append_nil]; exact i4) (by rw [l3]; exact hfit) (64 * L.mtotal)
+      have l4 : s4.limit = (layoutCfb streams L).length := by rw [(getChain_params _ _ _ _ _ _ _ _ e5).2, l3]
       rw [List.append_nil] at i5
       have hmini : (if 64 * L.mtotal > 0 then
           (padChunks L.ss L.fill (miniBody streams L).length (miniBody streams L)).flatten.take (64 * L.mtotal)
@@ -1686,20 +1703,19 @@ theorem new_layout (streams : List Stream) (L : Layout) (hv : ValidP streams L) 
       obtain ⟨s5, rd5, e6, i6, z6⟩ := Space.getChain_gen L.main L.ss hss L.fill (mainPieces streams L) (fatSector L)
         (difSector L) (mainPieces_uniform streams L) (fatSector_length L) (difSector_length L) 1 (le32s (miniFatTable L))
         (mainPieces_get streams L 1 _ rfl) hc1 (L.nfat * L.perFat) hv.total_fat hv.total_le s4 rd4 [] z5
-        (by rw [List.append_nil]; exact i5) (chainLen L.main 1 * L.ss)
+        (by rw [List.append_nil]; exact i5) (by rw [l4]; exact hfit) (chainLen L.main 1 * L.ss)
+      have l5 : s5.limit = (layoutCfb streams L).length := by rw [(getChain_params _ _ _ _ _ _ _ _ e6).2, l4]
       rw [List.append_nil] at i6
       rw [padChunks_flatten_exact L.ss L.fill hss _ _ (Nat.le_refl _) (by rw [hml]; exact Nat.mul_mod_left _ _)] at e6
       rw [dir_chain_result _ _ (Or.inr (by rw [hcl, hml]))] at e6
-      refine ⟨s5, rd5, ?_, i6, z6⟩
+      refine ⟨s5, rd5, ?_, i6, z6, l5⟩
       rw [e5]
       simp only [Res.bind_ok]
       rw [e6]
-      simp only [Res.bind_ok]
-      have hmod : (le32s (miniFatTable L)).length % 4 = 0 := by rw [le32s_length]; omega
-      simp only [hmod, ne_eq, not_true_eq_false, if_false, miniFat_u32s streams L hv]
+      simp only [Res.bind_ok, miniFat_u32s streams L hv]
     · simp only [hmf, if_false]
       rw [List.append_nil] at i4
-      refine ⟨s3, rd3, ?_, i4, z4⟩
+      refine ⟨s3, rd3, ?_, i4, z4, l3⟩
       have hm0 : L.mtotal = 0 := by
         have h0 : nsect L.perFat L.mtotal = 0 := by omega
         have := le_nsect_mul L.perFat L.mtotal (by rcases ss_cases L with ⟨_, h⟩ | ⟨_, h⟩ <;> omega)
@@ -1738,19 +1754,19 @@ theorem Sectors.get_inrange (s : Sectors) (id : Nat) (rd : Bytes) (h : id * s.si
 
 /-- a chain that stays inside the cached data reads nothing from the reader -/
 theorem chainLoop_follow_state (fats : List Nat) :
-    ∀ (ids : List Nat) (rem : Nat) (s : Sectors) (rd : Bytes), ids.length ≤ rem →
+    ∀ (ids : List Nat) (rem : Nat) (s : Sectors) (rd : Bytes) (acc : Nat), ids.length ≤ rem →
       (∀ i (h : i < ids.length), ids[i] ≠ ENDOFCHAIN ∧ fats[ids[i]]? = some (ids[i+1]?.getD ENDOFCHAIN)) →
       (∀ x ∈ ids, x * s.size + s.size ≤ s.data.length) →
       ∀ (x : Bytes) (s' : Sectors) (rd' : Bytes),
-        Sectors.chainLoop fats rem (ids[0]?.getD ENDOFCHAIN) s rd = .ok (x, s', rd') → s' = s ∧ rd' = rd := by
+        Sectors.chainLoop fats rem (ids[0]?.getD ENDOFCHAIN) s rd acc = .ok (x, s', rd') → s' = s ∧ rd' = rd := by
   intro ids
   induction ids with
   | nil =>
-    intro rem s rd _ _ _ x s' rd' h
+    intro rem s rd acc _ _ _ x s' rd' h
     simp only [List.getElem?_nil, Option.getD_none, chainLoop_end] at h
     injection h with h; injection h with _ h; injection h with h1 h2; exact ⟨h1.symm, h2.symm⟩
   | cons a rest ih =>
-    intro rem s rd hrem hch hin x s' rd' h
+    intro rem s rd acc hrem hch hin x s' rd' h
     obtain ⟨rem', rfl⟩ : ∃ r, rem = r + 1 := ⟨rem - 1, by simp at hrem; omega⟩
     have h0 := hch 0 (by simp)
     simp only [List.getElem_cons_zero, Nat.zero_add, List.getElem?_cons_succ] at h0
@@ -1759,19 +1775,21 @@ theorem chainLoop_follow_state (fats : List Nat) :
     simp only [List.getElem?_cons_zero, Option.getD_some] at h
     unfold Sectors.chainLoop at h
     simp only [hne, if_false, hfat] at h
-    rw [hg] at h
-    simp only at h
     split at h
-    · rename_i rest' s'' rd'' heq
-      injection h with h; injection h with _ h; injection h with h1 h2
-      have := ih rem' s rd (by simp at hrem; omega) (by
-        intro i hi
-        have := hch (i + 1) (by simp; omega)
-        simpa using this) (fun y hy => hin y (by simp [hy])) rest' s'' rd'' heq
-      rw [← h1, ← h2]; exact this
     · cases h
-    · cases h
-    · cases h
+    · rw [hg] at h
+      simp only at h
+      split at h
+      · rename_i rest' s'' rd'' heq
+        injection h with h; injection h with _ h; injection h with h1 h2
+        have := ih rem' s rd _ (by simp at hrem; omega) (by
+          intro i hi
+          have := hch (i + 1) (by simp; omega)
+          simpa using this) (fun y hy => hin y (by simp [hy])) rest' s'' rd'' heq
+        rw [← h1, ← h2]; exact this
+      · cases h
+      · cases h
+      · cases h
 
 
 /-- reading a chain of a space whose sectors are all cached: the result of `getChain_gen`, state unchanged -/
@@ -1780,20 +1798,21 @@ theorem Space.getChain_cached (sp : Space) (ss : Nat) (hss : 0 < ss) (fill : UIn
     (hP : UniformP ss P) (hf : ∀ j, (fatSec j).length = ss) (hd : ∀ j, (difSec j).length = ss)
     (c : Nat) (D : Bytes) (hPc : P[c]? = some (pieces ss fill D))
     (hok : chainOK sp c (nsect ss D.length) = true)
-    (len : Nat) (hlen : sp.owner.size ≤ len) (hres : sp.owner.size ≤ RESERVED) (rd : Bytes) (len0 : Nat) :
-    (⟨sp.body ss fill P fatSec difSec, ss⟩ : Sectors).getChain (chainStart sp c) (sp.fats len) rd len0 =
+    (len : Nat) (hlen : sp.owner.size ≤ len) (hres : sp.owner.size ≤ RESERVED) (rd : Bytes)
+    (lim : Nat) (hlim : ss * sp.owner.size ≤ lim) (len0 : Nat) :
+    (⟨sp.body ss fill P fatSec difSec, ss, lim⟩ : Sectors).getChain (chainStart sp c) (sp.fats len) rd len0 =
         .ok (if len0 > 0 then (padChunks ss fill D.length D).flatten.take len0
-             else (padChunks ss fill D.length D).flatten, ⟨sp.body ss fill P fatSec difSec, ss⟩, rd) := by
+             else (padChunks ss fill D.length D).flatten, ⟨sp.body ss fill P fatSec difSec, ss, lim⟩, rd) := by
   obtain ⟨s', rd', he, _, _⟩ := Space.getChain_gen sp ss hss fill P fatSec difSec hP hf hd c D hPc hok len hlen hres
-    ⟨sp.body ss fill P fatSec difSec, ss⟩ rd rd rfl rfl len0
+    ⟨sp.body ss fill P fatSec difSec, ss, lim⟩ rd rd rfl rfl hlim len0
   rw [he]
-  have hst : s' = ⟨sp.body ss fill P fatSec difSec, ss⟩ ∧ rd' = rd := by
+  have hst : s' = ⟨sp.body ss fill P fatSec difSec, ss, lim⟩ ∧ rd' = rd := by
     unfold Sectors.getChain at he
     split at he
     · rename_i chain s'' rd'' heq
       injection he with he; injection he with _ he; injection he with h1 h2
       rw [chainStart_eq] at heq
-      have := chainLoop_follow_state (sp.fats len) (sp.ids c) _ _ rd
+      have := chainLoop_follow_state (sp.fats len) (sp.ids c) _ _ rd 0
         (by rw [Space.fats_length]; exact Nat.le_trans (Space.ids_length_le sp c _ hok) hlen)
         (Space.fats_chain sp c _ len hok hlen hres)
         (by
@@ -1893,10 +1912,27 @@ theorem find_stream (streams : List Stream) (L : Layout) (hv : ValidP streams L)
 structure Good (streams : List Stream) (L : Layout) (c : CfbSt) (rd : Bytes) : Prop where
   dirs : c.dirs = parsedDirs streams L
   fats : c.fats = L.main.fats (L.nfat * L.perFat)
-  mini : c.mini = ⟨miniBody streams L, 64⟩
+  mini : c.mini = ⟨miniBody streams L, 64, (layoutCfb streams L).length⟩
   miniFats : c.miniFats = miniFatTable L
   inv : c.sectors.data ++ rd = mainBody streams L
   size : c.sectors.size = L.ss
+  limit : c.sectors.limit = (layoutCfb streams L).length
+
+theorem main_fits (streams : List Stream) (L : Layout) : L.ss * L.main.owner.size ≤ (layoutCfb streams L).length := by
+  rw [layoutCfb_length]; exact Nat.mul_le_mul_left _ (by simp only [Layout.total]; omega)
+
+theorem mini_fits (streams : List Stream) (L : Layout) (hv : ValidP streams L) :
+    64 * L.mini.owner.size ≤ (layoutCfb streams L).length := by
+  have hc2 := hv.chains 2 (by omega)
+  have hd2 : (mainData streams L).getD 2 [] = miniBody streams L := rfl
+  rw [hd2, miniBody_length] at hc2
+  have h1 := chain_size_le L.main 2 _ hc2
+  have h2 := le_nsect_mul L.ss (64 * L.mtotal) (ss_pos L)
+  have h3 : nsect L.ss (64 * L.mtotal) * L.ss ≤ L.main.owner.size * L.ss := Nat.mul_le_mul_right _ h1
+  have h4 := main_fits streams L
+  rw [Nat.mul_comm L.ss] at h4
+  simp only [Layout.mtotal] at h2 h3
+  omega
 
 theorem stream_read_result (ss : Nat) (fill : UInt8) (hss : 0 < ss) (D : Bytes) :
     (if D.length > 0 then (padChunks ss fill D.length D).flatten.take D.length
@@ -1914,8 +1950,8 @@ theorem getStream_layout (streams : List Stream) (L : Layout) (hv : ValidP strea
     · exact hlt
     · rw [List.getElem?_eq_none (by omega)] at hst; cases hst
   obtain ⟨dirs, sectors, fats, mini, miniFats⟩ := c
-  obtain ⟨g1, g2, g3, g4, g5, g6⟩ := hg
-  simp only at g1 g2 g3 g4 g5 g6
+  obtain ⟨g1, g2, g3, g4, g5, g6, g7⟩ := hg
+  simp only at g1 g2 g3 g4 g5 g6 g7
   subst g1 g2 g3 g4
   unfold getStream
   simp only
@@ -1931,12 +1967,12 @@ theorem getStream_layout (streams : List Stream) (L : Layout) (hv : ValidP strea
     have := Space.getChain_cached L.mini 64 (by omega) L.fill (miniPieces streams L)
       (fun _ => List.replicate 64 L.fill) (fun _ => List.replicate 64 L.fill) (miniPieces_uniform streams L)
       (by simp) (by simp) s0 st.data (miniPieces_get streams L s0 st hst hm) hok _ hN (mtotal_le streams L hv) rd
-      st.data.length
+      (layoutCfb streams L).length (mini_fits streams L hv) st.data.length
     rw [stream_read_result 64 L.fill (by omega)] at this
     rw [miniFatTable_eq]
     unfold miniBody
     rw [this]
-    exact ⟨_, rd, rfl, ⟨rfl, rfl, rfl, rfl, g5, g6⟩⟩
+    exact ⟨_, rd, rfl, ⟨rfl, rfl, rfl, rfl, g5, g6, g7⟩⟩
   · have hge : ¬ st.data.length < 4096 := by simpa [isMini] using hm
     have hm' : isMini st = false := by simpa using hm
     simp only [hge, if_false, hm', Bool.false_eq_true]
@@ -1950,11 +1986,12 @@ theorem getStream_layout (streams : List Stream) (L : Layout) (hv : ValidP strea
     obtain ⟨s', rd', he, hi, hz⟩ := Space.getChain_gen L.main L.ss (ss_pos L) L.fill (mainPieces streams L) (fatSector L)
       (difSector L) (mainPieces_uniform streams L) (fatSector_length L) (difSector_length L) (3 + s0) st.data hP hok
       (L.nfat * L.perFat) hv.total_fat hv.total_le sectors rd [] g6
-      (by rw [List.append_nil]; exact g5) st.data.length
+      (by rw [List.append_nil]; exact g5) (by rw [g7]; exact main_fits streams L) st.data.length
+    have hl' := (getChain_params _ _ _ _ _ _ _ _ he).2
     rw [stream_read_result L.ss L.fill (ss_pos L)] at he
     rw [List.append_nil] at hi
     rw [he]
-    exact ⟨_, rd', rfl, ⟨rfl, rfl, rfl, rfl, hi, hz⟩⟩
+    exact ⟨_, rd', rfl, ⟨rfl, rfl, rfl, rfl, hi, hz, hl'.trans g7⟩⟩
 
 theorem hasDirectory_layout (streams : List Stream) (L : Layout) (hv : ValidP streams L) (c : CfbSt) (rd : Bytes)
     (hg : Good streams L c rd) (st : Stream) (hst : st ∈ streams) : hasDirectory c st.name = true := by
@@ -1968,19 +2005,16 @@ theorem hasDirectory_layout (streams : List Stream) (L : Layout) (hv : ValidP st
 
 theorem new_layout_good (streams : List Stream) (L : Layout) (hv : ValidP streams L) :
     ∃ c rd, Cfb.new (layoutCfb streams L) (layoutCfb streams L).length = .ok (c, rd) ∧ Good streams L c rd := by
-  obtain ⟨s, rd, he, hi, hz⟩ := new_layout streams L hv
-  exact ⟨_, rd, he, ⟨rfl, rfl, rfl, rfl, hi, hz⟩⟩
+  obtain ⟨s, rd, he, hi, hz, hl⟩ := new_layout streams L hv
+  exact ⟨_, rd, he, ⟨rfl, rfl, rfl, rfl, hi, hz, hl⟩⟩
 
 
 
-/-! ## no panic, no hang (C06 flavour) -/
+/-! ## no panic, no hang, bounded accumulation (C06 flavour) -/
 
-
-def toU32Msg : String := "to_u32: assert_eq!(s.len() % 4, 0)"
-
-theorem chainLoop_clean (fats : List Nat) (rem id : Nat) (s : Sectors) (rd : Bytes) :
-    (∀ m, Sectors.chainLoop fats rem id s rd ≠ .panic m) ∧ Sectors.chainLoop fats rem id s rd ≠ .outOfFuel := by
-  induction rem generalizing id s rd with
+theorem chainLoop_clean (fats : List Nat) (rem id : Nat) (s : Sectors) (rd : Bytes) (acc : Nat) :
+    (∀ m, Sectors.chainLoop fats rem id s rd acc ≠ .panic m) ∧ Sectors.chainLoop fats rem id s rd acc ≠ .outOfFuel := by
+  induction rem generalizing id s rd acc with
   | zero => unfold Sectors.chainLoop; split <;> simp
   | succ rem ih =>
     unfold Sectors.chainLoop
@@ -1988,14 +2022,65 @@ theorem chainLoop_clean (fats : List Nat) (rem id : Nat) (s : Sectors) (rd : Byt
     split; · simp
     rename_i next _
     dsimp only
-    have := ih next (s.get id rd).2.1 (s.get id rd).2.2
+    split; · simp
+    have := ih next (s.get id rd).2.1 (s.get id rd).2.2 (acc + (s.get id rd).1.length)
     split <;> simp_all
 
 theorem getChain_clean (s : Sectors) (start : Nat) (fats : List Nat) (rd : Bytes) (len : Nat) :
     (∀ m, s.getChain start fats rd len ≠ .panic m) ∧ s.getChain start fats rd len ≠ .outOfFuel := by
   unfold Sectors.getChain
-  have := chainLoop_clean fats fats.length start s rd
+  have := chainLoop_clean fats fats.length start s rd 0
   split <;> simp_all
+
+/-- what the chain loop accumulates never exceeds the file length the reader was given -/
+theorem chainLoop_alloc (fats : List Nat) :
+    ∀ (rem id : Nat) (s : Sectors) (rd : Bytes) (acc : Nat) (x : Bytes) (s' : Sectors) (rd' : Bytes),
+      acc ≤ s.limit → Sectors.chainLoop fats rem id s rd acc = .ok (x, s', rd') → acc + x.length ≤ s.limit := by
+  intro rem
+  induction rem with
+  | zero =>
+    intro id s rd acc x s' rd' hacc h
+    unfold Sectors.chainLoop at h
+    split at h
+    · injection h with h; injection h with h0 _; subst h0; simpa using hacc
+    · cases h
+  | succ rem ih =>
+    intro id s rd acc x s' rd' hacc h
+    unfold Sectors.chainLoop at h
+    split at h
+    · injection h with h; injection h with h0 _; subst h0; simpa using hacc
+    · split at h
+      · cases h
+      · dsimp only at h
+        split at h
+        · cases h
+        · rename_i hchk
+          split at h
+          · rename_i rest s'' rd'' heq
+            injection h with h; injection h with h0 _
+            have := ih _ _ _ _ _ _ _ (by rw [Sectors.get_limit]; omega) heq
+            rw [Sectors.get_limit] at this
+            subst h0
+            simp only [List.length_append]; omega
+          · cases h
+          · cases h
+          · cases h
+
+theorem getChain_alloc (s : Sectors) (start : Nat) (fats : List Nat) (rd : Bytes) (len : Nat)
+    (x : Bytes) (s' : Sectors) (rd' : Bytes) (h : s.getChain start fats rd len = .ok (x, s', rd')) :
+    x.length ≤ s.limit := by
+  unfold Sectors.getChain at h
+  split at h
+  · rename_i chain s'' rd'' heq
+    injection h with h; injection h with h0 _
+    have := chainLoop_alloc fats _ _ _ _ 0 _ _ _ (Nat.zero_le _) heq
+    subst h0
+    split
+    · rw [List.length_take]; omega
+    · omega
+  · cases h
+  · cases h
+  · cases h
 
 theorem difatLoop_clean (rem id : Nat) (difat : List Nat) (s : Sectors) (rd : Bytes) :
     (∀ m, difatLoop rem id difat s rd ≠ .panic m) ∧ difatLoop rem id difat s rd ≠ .outOfFuel := by
@@ -2010,19 +2095,48 @@ theorem difatLoop_clean (rem id : Nat) (difat : List Nat) (s : Sectors) (rd : By
       · exact ih _ _ _ _
     · simp
 
-theorem loadFats_clean (ids : List Nat) (s : Sectors) (rd : Bytes) :
-    (∀ m, loadFats ids s rd = .panic m → m = toU32Msg) ∧ loadFats ids s rd ≠ .outOfFuel := by
-  induction ids generalizing s rd with
+theorem loadFats_clean (ids : List Nat) (s : Sectors) (rd : Bytes) (lim acc : Nat) :
+    (∀ m, loadFats ids s rd lim acc ≠ .panic m) ∧ loadFats ids s rd lim acc ≠ .outOfFuel := by
+  induction ids generalizing s rd acc with
   | nil => simp [loadFats]
   | cons id ids ih =>
     unfold loadFats
     split
     · dsimp only
       split
-      · simp [toU32Msg]
-      · have := ih (s.get id rd).2.1 (s.get id rd).2.2
+      · simp
+      · have := ih (s.get id rd).2.1 (s.get id rd).2.2 (acc + (u32s (s.get id rd).1).length)
         split <;> simp_all
-    · exact ih s rd
+    · exact ih s rd acc
+
+/-- the allocation table never has more than `lim` (= file length / 4) entries -/
+theorem loadFats_alloc : ∀ (ids : List Nat) (s : Sectors) (rd : Bytes) (lim acc : Nat)
+    (x : List Nat) (s' : Sectors) (rd' : Bytes), acc ≤ lim →
+    loadFats ids s rd lim acc = .ok (x, s', rd') → acc + x.length ≤ lim ∧ s'.limit = s.limit ∧ s'.size = s.size := by
+  intro ids
+  induction ids with
+  | nil =>
+    intro s rd lim acc x s' rd' hacc h
+    simp only [loadFats] at h
+    injection h with h; injection h with h0 h; injection h with h1 _; subst h0 h1
+    exact ⟨by simpa using hacc, rfl, rfl⟩
+  | cons id ids ih =>
+    intro s rd lim acc x s' rd' hacc h
+    unfold loadFats at h
+    split at h
+    · dsimp only at h
+      split at h
+      · cases h
+      · split at h
+        · rename_i rest s'' rd'' heq
+          injection h with h; injection h with h0 h; injection h with h1 _
+          have := ih _ _ _ _ _ _ _ (by omega) heq
+          subst h0 h1
+          refine ⟨by simp only [List.length_append]; omega, this.2.1, this.2.2.trans (Sectors.get_spec s id rd _ rfl).2.2⟩
+        · cases h
+        · cases h
+        · cases h
+    · exact ih _ _ _ _ _ _ _ hacc h
 
 theorem chunksAux_len (n : Nat) : ∀ (f : Nat) (l : Bytes), ∀ x ∈ chunksAux n f l, x.length = n := by
   intro f
@@ -2057,7 +2171,6 @@ theorem parseDirs_ok (ss : Nat) : ∀ (cs : List Bytes), (∀ x ∈ cs, x.length
     rw [hd, hds]
     exact ⟨_, rfl⟩
 
-
 theorem fromReader_clean (rd : Bytes) :
     (∀ m, Header.fromReader rd ≠ .panic m) ∧ Header.fromReader rd ≠ .outOfFuel := by
   unfold Header.fromReader
@@ -2068,10 +2181,13 @@ theorem fromReader_clean (rd : Bytes) :
   split; · simp
   split <;> simp
 
-/-- the only way `Cfb::new` can still unwind is `to_u32`'s assert on a truncated table sector; it never
-    runs out of fuel (every loop is bounded by the file) -/
+/-- `Cfb::new` is total on arbitrary bytes: it returns `Ok` or `Err`, never panics, never runs out of fuel;
+    and whatever it returns respects the file length: the allocation table has at most `len / 4` entries, the
+    mini stream at most `len` bytes, both sector caches carry the limit `len` -/
 theorem new_clean (file : Bytes) (len : Nat) :
-    (∀ m, Cfb.new file len = .panic m → m = toU32Msg) ∧ Cfb.new file len ≠ .outOfFuel := by
+    (∀ m, Cfb.new file len ≠ .panic m) ∧ Cfb.new file len ≠ .outOfFuel ∧
+    ∀ c rd, Cfb.new file len = .ok (c, rd) →
+      c.fats.length ≤ len / 4 ∧ c.mini.data.length ≤ len ∧ c.sectors.limit = len ∧ c.mini.limit = len := by
   unfold Cfb.new
   have c1 := fromReader_clean file
   cases h1 : Header.fromReader file with
@@ -2081,21 +2197,24 @@ theorem new_clean (file : Bytes) (len : Nat) :
   | ok v1 =>
     obtain ⟨h, difat0, rd⟩ := v1
     simp only [Res.bind_ok]
-    have c2 := difatLoop_clean (len / h.sectorSize + 1) h.difatStart difat0 ⟨[], h.sectorSize⟩ rd
-    cases h2 : difatLoop (len / h.sectorSize + 1) h.difatStart difat0 ⟨[], h.sectorSize⟩ rd with
+    have c2 := difatLoop_clean (len / h.sectorSize + 1) h.difatStart difat0 ⟨[], h.sectorSize, len⟩ rd
+    cases h2 : difatLoop (len / h.sectorSize + 1) h.difatStart difat0 ⟨[], h.sectorSize, len⟩ rd with
     | err e => simp
     | panic m => exact absurd h2 (c2.1 m)
     | outOfFuel => exact absurd h2 c2.2
     | ok v2 =>
       obtain ⟨difat, s1, rd1⟩ := v2
+      have l1 : s1.limit = len := (difatLoop_params _ _ _ _ _ _ _ _ h2).2
       simp only [Res.bind_ok]
-      have c3 := loadFats_clean difat s1 rd1
-      cases h3 : loadFats difat s1 rd1 with
+      have c3 := loadFats_clean difat s1 rd1 (len / 4) 0
+      cases h3 : loadFats difat s1 rd1 (len / 4) 0 with
       | err e => simp
-      | panic m => have := c3.1 m h3; simp [this]
+      | panic m => exact absurd h3 (c3.1 m)
       | outOfFuel => exact absurd h3 c3.2
       | ok v3 =>
         obtain ⟨fats, s2, rd2⟩ := v3
+        obtain ⟨a3, l2, _⟩ := loadFats_alloc _ _ _ _ _ _ _ _ (Nat.zero_le _) h3
+        rw [l1] at l2
         simp only [Res.bind_ok]
         have c4 := getChain_clean s2 h.dirStart fats rd2 (h.dirLen * h.sectorSize)
         cases h4 : s2.getChain h.dirStart fats rd2 (h.dirLen * h.sectorSize) with
@@ -2104,6 +2223,7 @@ theorem new_clean (file : Bytes) (len : Nat) :
         | outOfFuel => exact absurd h4 c4.2
         | ok v4 =>
           obtain ⟨dirBytes, s3, rd3⟩ := v4
+          have l3 : s3.limit = len := by rw [(getChain_params _ _ _ _ _ _ _ _ h4).2, l2]
           simp only [Res.bind_ok]
           obtain ⟨dirs, hdirs⟩ := parseDirs_ok h.sectorSize (chunksExact 128 dirBytes) (chunksAux_len 128 _ _)
           rw [hdirs]
@@ -2120,6 +2240,9 @@ theorem new_clean (file : Bytes) (len : Nat) :
               | outOfFuel => exact absurd h5 c5.2
               | ok v5 =>
                 obtain ⟨ms, s4, rd4⟩ := v5
+                have l4 : s4.limit = len := by rw [(getChain_params _ _ _ _ _ _ _ _ h5).2, l3]
+                have a5 := getChain_alloc _ _ _ _ _ _ _ _ h5
+                rw [l3] at a5
                 simp only [Res.bind_ok]
                 have c6 := getChain_clean s4 h.miniFatStart fats rd4 (h.miniFatLen * h.sectorSize)
                 cases h6 : s4.getChain h.miniFatStart fats rd4 (h.miniFatLen * h.sectorSize) with
@@ -2128,9 +2251,16 @@ theorem new_clean (file : Bytes) (len : Nat) :
                 | outOfFuel => exact absurd h6 c6.2
                 | ok v6 =>
                   obtain ⟨mf, s5, rd5⟩ := v6
+                  have l5 : s5.limit = len := by rw [(getChain_params _ _ _ _ _ _ _ _ h6).2, l4]
                   simp only [Res.bind_ok]
-                  split <;> simp [toU32Msg]
-            · simp
+                  refine ⟨by simp, by simp, ?_⟩
+                  intro c rd' hc
+                  injection hc with hc; injection hc with hc _; subst hc
+                  exact ⟨by simpa using a3, a5, l5, rfl⟩
+            · refine ⟨by simp, by simp, ?_⟩
+              intro c rd' hc
+              injection hc with hc; injection hc with hc _; subst hc
+              exact ⟨by simpa using a3, by simp, l3, rfl⟩
 
 /-- `get_stream` never unwinds and never runs out of fuel, whatever the state and the allocation tables -/
 theorem getStream_clean (c : CfbSt) (name : List Char) (rd : Bytes) :
@@ -2145,5 +2275,33 @@ theorem getStream_clean (c : CfbSt) (name : List Char) (rd : Bytes) :
     · have := getChain_clean c.sectors d.start c.fats rd d.len
       split <;> simp_all
 
+/-- what `get_stream` returns is never longer than the file length the reader was given, and the limits stay -/
+theorem getStream_alloc (c : CfbSt) (name : List Char) (rd : Bytes) (len : Nat)
+    (h1 : c.sectors.limit = len) (h2 : c.mini.limit = len) (x : Bytes) (c' : CfbSt) (rd' : Bytes)
+    (h : getStream c name rd = .ok (x, c', rd')) :
+    x.length ≤ len ∧ c'.sectors.limit = len ∧ c'.mini.limit = len := by
+  unfold getStream at h
+  split at h
+  · cases h
+  · rename_i d _
+    split at h
+    · split at h
+      · rename_i y m' rd'' heq
+        injection h with h; injection h with h0 h; injection h with h3 _; subst h0 h3
+        have a := getChain_alloc _ _ _ _ _ _ _ _ heq
+        have p := (getChain_params _ _ _ _ _ _ _ _ heq).2
+        exact ⟨by rw [h2] at a; exact a, h1, by simpa [h2] using p⟩
+      · cases h
+      · cases h
+      · cases h
+    · split at h
+      · rename_i y s' rd'' heq
+        injection h with h; injection h with h0 h; injection h with h3 _; subst h0 h3
+        have a := getChain_alloc _ _ _ _ _ _ _ _ heq
+        have p := (getChain_params _ _ _ _ _ _ _ _ heq).2
+        exact ⟨by rw [h1] at a; exact a, by simpa [h1] using p, h2⟩
+      · cases h
+      · cases h
+      · cases h
 
 end Cfb
